@@ -996,7 +996,8 @@ theorem inv_init {d : Diagram} {H : Nat → Option Handler} {G : Prop} {mi : MIn
 theorem preflight_none {d : Diagram} {H : Nat → Option Handler} {mi : MInputs} (h : preflight d H mi = none) :
     (∀ w ∈ d.wires, (d.findMod w.srcM).isSome = true) ∧
     (∀ w ∈ d.wires, (d.incoming w.dstM w.dstP).length ≤ 1) ∧
-    (∀ m ∈ d.modules, preflightModule d H mi m = none) := by
+    (∀ m ∈ d.modules, preflightModule d H mi m = none) ∧
+    (∀ w ∈ d.wires, hasKey w.dstP (mi w.dstM) = false) := by
   unfold preflight at h
   split at h
   · cases h
@@ -1004,12 +1005,16 @@ theorem preflight_none {d : Diagram} {H : Nat → Option Handler} {mi : MInputs}
     split at h
     · cases h
     · rename_i h2
-      simp only [List.any_eq_true, not_exists, not_and, Bool.not_eq_true, Option.isNone_eq_false_iff] at h1
-      simp only [List.any_eq_true, decide_eq_true_eq, not_exists, not_and, Nat.not_lt] at h2
-      refine ⟨fun w hw => by simpa using h1 w hw, h2, ?_⟩
-      intro m hm
-      rw [List.findSome?_eq_none_iff] at h
-      exact h m hm
+      split at h
+      · cases h
+      · rename_i h4
+        simp only [List.any_eq_true, not_exists, not_and, Bool.not_eq_true, Option.isNone_eq_false_iff] at h1
+        simp only [List.any_eq_true, decide_eq_true_eq, not_exists, not_and, Nat.not_lt] at h2
+        simp only [List.any_eq_true, not_exists, not_and, Bool.not_eq_true] at h4
+        refine ⟨fun w hw => by simpa using h1 w hw, h2, ?_, h4⟩
+        intro m hm
+        rw [List.findSome?_eq_none_iff] at h
+        exact h m hm
 
 theorem preflightModule_none {d : Diagram} {H : Nat → Option Handler} {mi : MInputs} {m : ModuleSpec}
     (h : preflightModule d H mi m = none) :
@@ -1062,13 +1067,15 @@ theorem preflight_some {d : Diagram} {H : Nat → Option Handler} {mi : MInputs}
     | some m => simp [hf] at hn
   · split at h
     · cases h; exact Or.inl rfl
-    · obtain ⟨m, -, hm⟩ := List.exists_of_findSome?_eq_some h
-      unfold preflightModule at hm
-      split at hm
-      · cases hm; exact Or.inl rfl
-      · split at hm
+    · split at h
+      · cases h; exact Or.inl rfl
+      · obtain ⟨m, -, hm⟩ := List.exists_of_findSome?_eq_some h
+        unfold preflightModule at hm
+        split at hm
         · cases hm; exact Or.inl rfl
-        · cases hm
+        · split at hm
+          · cases hm; exact Or.inl rfl
+          · cases hm
 
 /-- a successful run ends in a state of the loop that satisfies the invariant and has executed as many
     modules as the diagram has -/
@@ -1669,7 +1676,6 @@ structure Schedulable (d : Diagram) (H : Nat → Option Handler) (mi : MInputs) 
   acc : d.Accepted
   honest : Honest d H
   pre : preflight d H mi = none
-  excl : ∀ w ∈ d.wires, hasKey w.dstP (mi w.dstM) = false
   acyclic : ∀ a, ¬ d.Reaches a a
 
 theorem pass_live {d : Diagram} {H : Nat → Option Handler} {enforce : Bool} {mi : MInputs}
@@ -1687,9 +1693,9 @@ theorem pass_live {d : Diagram} {H : Nat → Option Handler} {enforce : Bool} {m
       · exact pass_live hs hms' hinv
       · rename_i hready
         replace hready : ready st m = true := by simpa using hready
-        obtain ⟨-, h2, h3⟩ := preflight_none hs.pre
+        obtain ⟨-, h2, h3, h4⟩ := preflight_none hs.pre
         obtain ⟨st1, hrun, hinv1, -⟩ := runModule_live (enforce := enforce) hs.wf hs.acc hs.honest
-          (fun m hm hne => (preflightModule_none (h3 m hm)).1 hne) h2 hs.excl hinv (hms m (by simp)) hnot hready
+          (fun m hm hne => (preflightModule_none (h3 m hm)).1 hne) h2 h4 hinv (hms m (by simp)) hnot hready
         simp only [hrun]
         exact pass_live hs hms' hinv1
 
@@ -1754,7 +1760,7 @@ theorem exists_minimal (T : Nat → Nat → Prop) (htrans : ∀ a b c, T a b →
 theorem exists_ready {d : Diagram} {H : Nat → Option Handler} {mi : MInputs} {st : St}
     (hs : Schedulable d H mi) (hinv : Inv2 d H mi st) (hlt : st.order.length < d.modules.length) :
     ∃ m ∈ d.modules, m.name ∉ st.order ∧ ready st m = true := by
-  obtain ⟨h1, -, h3⟩ := preflight_none hs.pre
+  obtain ⟨h1, -, h3, -⟩ := preflight_none hs.pre
   let L := (d.modules.map (·.name)).filter (fun n => decide (n ∉ st.order))
   have hL : L ≠ [] := by
     intro hnil
@@ -1833,5 +1839,302 @@ theorem execute_live {d : Diagram} {H : Nat → Option Handler} {ext : List (Nat
   unfold execute
   simp only [hext, hs.pre, hl]
   exact ⟨_, rfl⟩
+
+/-! ### external values do arrive -/
+
+theorem hasKey_setKey_iff {β : Type} (k p : Nat) (v : β) :
+    ∀ l : List (Nat × β), hasKey p (setKey k v l) = true ↔ (p = k ∨ hasKey p l = true)
+  | [] => by
+    simp only [setKey, hasKey, List.any_cons, List.any_nil, Bool.or_false, beq_iff_eq, Bool.false_eq_true, or_false]
+    exact eq_comm
+  | (k', v') :: r => by
+    simp only [setKey]
+    split
+    · rename_i hk
+      have hk' : k' = k := by simpa using hk
+      subst hk'
+      simp only [hasKey, List.any_cons, Bool.or_eq_true, beq_iff_eq]
+      constructor
+      · rintro (h | h)
+        · exact Or.inl h.symm
+        · exact Or.inr (Or.inr h)
+      · rintro (h | h | h)
+        · exact Or.inl h.symm
+        · exact Or.inl h
+        · exact Or.inr h
+    · have ih := hasKey_setKey_iff k p v r
+      simp only [hasKey, List.any_cons, Bool.or_eq_true, beq_iff_eq] at ih ⊢
+      rw [ih]
+      constructor
+      · rintro (h | h | h)
+        · exact Or.inr (Or.inl h)
+        · exact Or.inl h
+        · exact Or.inr (Or.inr h)
+      · rintro (h | h | h)
+        · exact Or.inr (Or.inl h)
+        · exact Or.inl h
+        · exact Or.inr (Or.inr h)
+
+theorem extPorts_has {m : ModuleSpec} :
+    ∀ {ins : List (Nat × Val)} {acc res : List (Nat × TV)}, extPorts m ins acc = .ok res →
+      (∀ p, hasKey p acc = true → hasKey p res = true) ∧ (∀ p ∈ keys ins, hasKey p res = true)
+  | [], acc, res, h => by
+    simp only [extPorts] at h; cases h
+    exact ⟨fun _ hp => hp, by simp [keys]⟩
+  | (q, v) :: r, acc, res, h => by
+    simp only [extPorts] at h
+    split at h
+    · cases h
+    · split at h
+      · cases h
+      · rename_i tv _
+        obtain ⟨h1, h2⟩ := extPorts_has h
+        refine ⟨fun p hp => h1 p ((hasKey_setKey_iff q p tv acc).mpr (Or.inr hp)), ?_⟩
+        intro p hp
+        simp only [keys, List.map_cons, List.mem_cons] at hp
+        rcases hp with hp | hp
+        · exact h1 p ((hasKey_setKey_iff q p tv acc).mpr (Or.inl hp))
+        · exact h2 p hp
+
+theorem extPhase_has {d : Diagram} :
+    ∀ {ext : List (Nat × List (Nat × Val))} {mi mi' : MInputs}, extPhase d ext mi = .ok mi' →
+      (∀ n p, hasKey p (mi n) = true → hasKey p (mi' n) = true) ∧
+      (∀ n ins, (n, ins) ∈ ext → ∀ p ∈ keys ins, hasKey p (mi' n) = true)
+  | [], mi, mi', h => by
+    simp only [extPhase] at h; cases h
+    exact ⟨fun _ _ hp => hp, by simp⟩
+  | (k, ins) :: r, mi, mi', h => by
+    simp only [extPhase] at h
+    split at h
+    · cases h
+    · split at h
+      · cases h
+      · rename_i l hl
+        obtain ⟨h1, h2⟩ := extPhase_has h
+        obtain ⟨g1, g2⟩ := extPorts_has hl
+        refine ⟨?_, ?_⟩
+        · intro n p hp
+          apply h1 n p
+          by_cases hn : n = k
+          · subst hn; simp only [if_true]; exact g1 p hp
+          · simp only [hn, if_false]; exact hp
+        · intro n ins' hmem p hp
+          simp only [List.mem_cons, Prod.mk.injEq] at hmem
+          rcases hmem with ⟨rfl, rfl⟩ | hmem
+          · apply h1 n p
+            simp only [if_true]; exact g2 p hp
+          · exact h2 n ins' hmem p hp
+
+/-! ### every handler invocation comes after the invocations of the modules wired into it -/
+
+/-- a wired port holds a value only when the wire's source module has run -/
+def Fed (d : Diagram) (st : St) : Prop :=
+  ∀ w ∈ d.wires, hasKey w.dstP (st.minputs w.dstM) = true → w.srcM ∈ st.order
+
+/-- one wire per input port -/
+def Diagram.Uniq (d : Diagram) : Prop := ∀ w ∈ d.wires, (d.incoming w.dstM w.dstP).length ≤ 1
+
+/-- the invocation `c` saw, on the destination port of wire `w`, the value that the earlier invocation `s` of the
+    wire's source module returned for the wire's source port (coerced to the declared label) -/
+def FedBy (d : Diagram) (H : Nat → Option Handler) (w : Wire) (s c : Call) : Prop :=
+  s.name = w.srcM ∧ ∃ ms hd raw outs v, d.findMod s.name = some ms ∧ H s.name = some hd ∧
+    hd s.inputs = .ret raw ∧ coerceOutputs raw ms.outputs = .ok outs ∧ outs.lookup w.srcP = some v ∧
+    (w.dstP, v) ∈ c.inputs
+
+/-- every handler invocation is preceded by an invocation of the source module of every wire into its module,
+    and saw that invocation's output on the wire's port -/
+def CallsAfter (d : Diagram) (H : Nat → Option Handler) (calls : List Call) : Prop :=
+  ∀ pre c post, calls = pre ++ c :: post → ∀ w ∈ d.wires, w.dstM = c.name → ∃ s ∈ pre, FedBy d H w s c
+
+theorem callsAfter_nil (d : Diagram) (H : Nat → Option Handler) : CallsAfter d H [] := by
+  intro pre c post h; simp at h
+
+theorem callsAfter_snoc {d : Diagram} {H : Nat → Option Handler} {calls : List Call} {c : Call}
+    (h : CallsAfter d H calls) (hc : ∀ w ∈ d.wires, w.dstM = c.name → ∃ s ∈ calls, FedBy d H w s c) :
+    CallsAfter d H (calls ++ [c]) := by
+  intro pre c' post heq w hw hd
+  rcases List.eq_nil_or_concat post with rfl | ⟨post', x, rfl⟩
+  · have : pre ++ [c'] = calls ++ [c] := heq.symm
+    obtain ⟨h1, h2⟩ := List.append_inj' this rfl
+    simp only [List.cons.injEq, and_true] at h2
+    subst h1; subst h2
+    exact hc w hw hd
+  · rw [List.concat_eq_append, ← List.cons_append, ← List.append_assoc] at heq
+    obtain ⟨h1, -⟩ := List.append_inj' heq rfl
+    exact h pre c' post' h1 w hw hd
+
+theorem fed_init {d : Diagram} {mi : MInputs} (h : ∀ w ∈ d.wires, hasKey w.dstP (mi w.dstM) = false) :
+    Fed d ⟨mi, [], []⟩ := by
+  intro w hw hk
+  rw [h w hw] at hk; cases hk
+
+theorem runModule_fed {d : Diagram} {H : Nat → Option Handler} {enforce : Bool} {st st' : St} {m : ModuleSpec}
+    (hu : d.Uniq) (hfed : Fed d st) (h : runModule d H enforce st m = .ok st') : Fed d st' := by
+  have hord := runModule_records h
+  unfold runModule at h
+  split at h
+  · cases h
+  · obtain ⟨-, -, d3, -⟩ := deliver_ok h
+    simp only at d3
+    intro w hw hk
+    obtain ⟨extra, he, hx⟩ := d3 w.dstM
+    rw [he, hasKey_append, Bool.or_eq_true] at hk
+    rw [hord]
+    rcases hk with hk | hk
+    · exact List.mem_append_left _ (hfed w hw hk)
+    · obtain ⟨v, hv⟩ := (hasKey_iff _ _).mp hk
+      obtain ⟨w', hw', h1, h2, -⟩ := hx (w.dstP, v) hv
+      have hw'' : w' ∈ d.wires ∧ w'.srcM = m.name := by simpa [Diagram.outgoing] using hw'
+      have hin : ∀ x ∈ d.wires, x.dstM = w.dstM → x.dstP = w.dstP → x ∈ d.incoming w.dstM w.dstP := by
+        intro x hx a b; simp [Diagram.incoming, hx, a, b]
+      have := length_le_one_eq (hu w hw) (hin w' hw''.1 h1 h2) (hin w hw rfl rfl)
+      rw [← this, hw''.2]; simp
+
+/-- the invocation that is about to be made (module `m` ready, not yet run) comes after its feeders -/
+theorem new_call_after {d : Diagram} {H : Nat → Option Handler} {G : Prop} {st : St} {m : ModuleSpec}
+    (hwf : d.WF) (hex : d.WiresExist) (hinv : Inv d H G st) (hfed : Fed d st)
+    (hm : m ∈ d.modules) (hready : ready st m = true) :
+    ∀ w ∈ d.wires, w.dstM = m.name → ∃ s ∈ st.calls, FedBy d H w s ⟨m.name, st.minputs m.name⟩ := by
+  intro w hw hdm
+  have hfm : d.findMod m.name = some m := findMod_of_mem hwf hm
+  obtain ⟨-, hin⟩ := hex w hw
+  cases hpt : d.inPort w.dstM w.dstP with
+  | none => simp [hpt] at hin
+  | some pt =>
+    obtain ⟨m1, hm1, hlk⟩ := inPort_some hpt
+    rw [hdm, hfm] at hm1; cases hm1
+    have hk := ready_iff.mp hready (w.dstP, pt) (lookup_mem hlk)
+    simp only at hk
+    rw [← hdm] at hk
+    have hsrc := hfed w hw hk
+    obtain ⟨r, hr, hrn, -, v, hlkv, hmem⟩ := hinv.flowed w hw hsrc
+    obtain ⟨ms, hfs, hrin, -, hg⟩ := hinv.recMod r hr
+    unfold RecGood at hg
+    cases hH : H r.name with
+    | none => simp only [hH] at hg; rw [hg] at hlkv; simp at hlkv
+    | some hd =>
+      simp only [hH] at hg
+      obtain ⟨raw, hret, -, hco⟩ := hg
+      refine ⟨⟨r.name, r.inputs⟩, (mem_calls hinv).mpr ⟨r, hr, by simp [hH], rfl⟩, hrn, ms, hd, raw, r.outputs, v,
+        hfs, hH, hret, hco, hlkv, ?_⟩
+      rw [← hdm]; exact hmem
+
+theorem runModule_after {d : Diagram} {H : Nat → Option Handler} {enforce : Bool} {G : Prop} {st st' : St}
+    {m : ModuleSpec} (hwf : d.WF) (hex : d.WiresExist) (hinv : Inv d H G st) (hfed : Fed d st)
+    (hca : CallsAfter d H st.calls) (hm : m ∈ d.modules) (hready : ready st m = true)
+    (h : runModule d H enforce st m = .ok st') : CallsAfter d H st'.calls := by
+  have hnew := new_call_after hwf hex hinv hfed hm hready
+  unfold runModule at h
+  split at h
+  · cases h
+  · rename_i calls outs hp
+    obtain ⟨-, d2, -, -⟩ := deliver_ok h
+    simp only at d2
+    obtain ⟨-, hcalls⟩ := produce_ok hp
+    rw [d2, hcalls]
+    unfold newCall
+    split
+    · exact callsAfter_snoc hca hnew
+    · simpa using hca
+
+theorem runModule_fail_after {d : Diagram} {H : Nat → Option Handler} {enforce : Bool} {G : Prop} {st : St}
+    {m : ModuleSpec} {f : Fail} (hwf : d.WF) (hex : d.WiresExist) (hinv : Inv d H G st) (hfed : Fed d st)
+    (hca : CallsAfter d H st.calls) (hm : m ∈ d.modules) (hready : ready st m = true)
+    (h : runModule d H enforce st m = .error f) : CallsAfter d H f.1 := by
+  have hnew := new_call_after hwf hex hinv hfed hm hready
+  unfold runModule at h
+  split at h
+  · rename_i f' hp
+    cases h
+    obtain ⟨calls, e⟩ := f
+    obtain ⟨hc, -⟩ := produce_err hp
+    subst hc
+    exact callsAfter_snoc hca hnew
+  · rename_i calls outs hp
+    obtain ⟨calls', e⟩ := f
+    obtain ⟨hc, -⟩ := deliver_err h
+    simp only at hc
+    subst hc
+    obtain ⟨-, hcalls⟩ := produce_ok hp
+    subst hcalls
+    unfold newCall
+    split
+    · exact callsAfter_snoc hca hnew
+    · simpa using hca
+
+theorem pass_after {d : Diagram} {H : Nat → Option Handler} {enforce : Bool} {G : Prop} (hwf : d.WF)
+    (hG : G → enforce = true ∨ d.Accepted) (hex : d.WiresExist) (hu : d.Uniq) :
+    ∀ {ms : List ModuleSpec} {st : St}, (∀ m ∈ ms, m ∈ d.modules) → Inv d H G st → Fed d st →
+      CallsAfter d H st.calls →
+      (∀ st', pass d H enforce ms st = .ok st' → Fed d st' ∧ CallsAfter d H st'.calls) ∧
+      (∀ f, pass d H enforce ms st = .error f → CallsAfter d H f.1)
+  | [], st, _, _, hfed, hca => by
+    simp only [pass]
+    exact ⟨fun st' h => (by cases h; exact ⟨hfed, hca⟩), fun f h => (by cases h)⟩
+  | m :: ms, st, hms, hinv, hfed, hca => by
+    have hms' : ∀ m' ∈ ms, m' ∈ d.modules := fun m' hm' => hms m' (List.mem_cons_of_mem _ hm')
+    simp only [pass]
+    split
+    · exact pass_after hwf hG hex hu hms' hinv hfed hca
+    · rename_i hnot
+      split
+      · exact pass_after hwf hG hex hu hms' hinv hfed hca
+      · rename_i hready
+        replace hready : ready st m = true := by simpa using hready
+        split
+        · rename_i f' hrun
+          refine ⟨fun st' h => (by cases h), fun f h => ?_⟩
+          cases h
+          exact runModule_fail_after hwf hex hinv hfed hca (hms m (by simp)) hready hrun
+        · rename_i st1 hrun
+          obtain ⟨hinv1, -⟩ := runModule_inv hwf hG hinv (hms m (by simp)) hnot hready hrun
+          exact pass_after hwf hG hex hu hms' hinv1 (runModule_fed hu hfed hrun)
+            (runModule_after hwf hex hinv hfed hca (hms m (by simp)) hready hrun)
+
+theorem loop_after {d : Diagram} {H : Nat → Option Handler} {enforce : Bool} {G : Prop} (hwf : d.WF)
+    (hG : G → enforce = true ∨ d.Accepted) (hex : d.WiresExist) (hu : d.Uniq) :
+    ∀ {fuel : Nat} {st : St}, Inv d H G st → Fed d st → CallsAfter d H st.calls →
+      (∀ st', loop d H enforce fuel st = .ok st' → CallsAfter d H st'.calls) ∧
+      (∀ f, loop d H enforce fuel st = .error f → CallsAfter d H f.1)
+  | 0, st, _, _, hca => by
+    simp only [loop]
+    split
+    · exact ⟨fun st' h => (by cases h), fun f h => (by cases h; exact hca)⟩
+    · exact ⟨fun st' h => (by cases h; exact hca), fun f h => (by cases h)⟩
+  | fuel + 1, st, hinv, hfed, hca => by
+    simp only [loop]
+    split
+    · obtain ⟨p1, p2⟩ := pass_after (enforce := enforce) hwf hG hex hu (fun _ hm => hm) hinv hfed hca
+      split
+      · rename_i f' hp
+        exact ⟨fun st' h => (by cases h), fun f h => (by cases h; exact p2 _ hp)⟩
+      · rename_i st1 hp
+        obtain ⟨hfed1, hca1⟩ := p1 st1 hp
+        have hinv1 := (pass_ok hwf hG (fun _ hm => hm) hinv hp).1
+        split
+        · exact ⟨fun st' h => (by cases h), fun f h => (by cases h; exact hca1)⟩
+        · exact loop_after hwf hG hex hu hinv1 hfed1 hca1
+    · exact ⟨fun st' h => (by cases h; exact hca), fun f h => (by cases h)⟩
+
+/-- in every run of a diagram whose wires join existing ports, every handler invocation comes after an
+    invocation of the source module of every wire into its module and saw that invocation's output -/
+theorem execute_callsAfter {d : Diagram} {H : Nat → Option Handler} {ext : List (Nat × List (Nat × Val))}
+    {enforce : Bool} (hwf : d.WF) (hex : d.WiresExist) : CallsAfter d H (execute d H ext enforce).calls := by
+  unfold execute
+  split
+  · exact callsAfter_nil d H
+  · rename_i mi hext
+    split
+    · exact callsAfter_nil d H
+    · rename_i hpre
+      obtain ⟨-, hu, -, hexcl⟩ := preflight_none hpre
+      have hi : Inv d H False ⟨mi, [], []⟩ := inv_init (extPhase_ok hext (portsFit_empty d False))
+      obtain ⟨l1, l2⟩ := loop_after (enforce := enforce) (fuel := d.modules.length) hwf (fun f => f.elim) hex hu hi
+        (fed_init hexcl) (callsAfter_nil d H)
+      split
+      · rename_i calls e hl
+        exact l2 _ hl
+      · rename_i st hl
+        exact l1 _ hl
 
 end Operon.Wiring
